@@ -1,6 +1,6 @@
 //@ unit fmt_consume
 //@ serves C01 C04
-//@ must_verify ExpressionTemplate::consume_expr lemma_depth_examples
+//@ must_verify ExpressionTemplate::consume_expr lemma_depth_examples lemma_group_unique
 //@ include prelude/head.rs
 use std::rc::Rc;
 
@@ -28,6 +28,28 @@ pub open spec fn seq_facts(s: Seq<char>) -> bool {
     &&& forall|t: int| 0 <= t < s.len() ==> #[trigger] s.skip(t).drop_first() == s.skip(t + 1)
     &&& forall|t: int| 1 <= t < s.len() ==> #[trigger] s.subrange(1, t).push(s[t]) == s.subrange(1, t + 1)
     &&& (s.len() >= 1 ==> s.subrange(1, 1) == Seq::<char>::empty())
+}
+
+// what consume_expr's postcondition says about the number k of characters taken from a text that starts with `{`
+pub open spec fn is_group_end(s: Seq<char>, k: int) -> bool {
+    &&& 1 <= k <= s.len()
+    &&& inside(s, k)
+    &&& (k < s.len() ==> depth(s, k) == 0)
+    &&& (depth(s, k) != 0 ==> k == s.len())
+}
+// ... determines k: the reader is a FUNCTION of the remaining text (what unit fmt_template assumes of it as ce_take / ce_ok)
+proof fn lemma_group_unique(s: Seq<char>, k1: int, k2: int)
+    requires is_group_end(s, k1), is_group_end(s, k2)
+    ensures k1 == k2
+{
+    if k1 < k2 {
+        assert(depth(s, k1) == 0);
+        assert(depth(s, k1) >= 1);
+    }
+    if k2 < k1 {
+        assert(depth(s, k2) == 0);
+        assert(depth(s, k2) >= 1);
+    }
 }
 
 proof fn lemma_depth_examples()
@@ -85,6 +107,7 @@ pub struct ExpressionTemplate();
             old(iter).rest@.len() > 0 && old(iter).rest@[0] == '{' ==> ({
                 let s = old(iter).rest@;
                 let k = s.len() - final(iter).rest@.len();
+                &&& is_group_end(s, k)          // determines k (lemma_group_unique)
                 &&& 1 <= k <= s.len()
                 &&& inside(s, k)
                 &&& (k < s.len() ==> depth(s, k) == 0)
